@@ -31,6 +31,13 @@ theorem ParserAlignedBlock_unpack_state_independent (t u : Block) (buf : Bytes) 
   · simp
   · simp
 
+/-- non-vacuity: a block object holding a longer payload decodes a 12-byte block (error flag, code 63) followed by a byte -/
+example :
+    let a : Block := { Block.fresh with error := true, errorcode := 63, payload := [1, 2, 3, 4] }
+    let t : Block := { Block.fresh with payload := [9, 9, 9, 9, 9, 9, 9, 9], quadbytes := 4 }
+    ∃ b, (Block.pack a).2 = .ok b ∧ (Block.unpack t (b ++ [0xEE])).2 = .ok 12 ∧ (Block.unpack t (b ++ [0xEE])).1.payload = [1, 2, 3, 4] :=
+  ⟨_, rfl, rfl, rfl⟩
+
 theorem packBlocks_idem (bs : List Block) : packBlocks (packBlocks bs).1 = packBlocks bs := by
   induction bs with
   | nil => rfl
@@ -76,6 +83,13 @@ theorem ParserAlignedPacket_unpack_numberofblocks (t : Packet) (buf : Bytes)
   revert h
   simp only [Packet.unpack]
   split <;> simp
+
+/-- non-vacuity: a packet object holding three blocks decodes a two-block packet and ends with count 2 -/
+example :
+    let a : Packet := { Packet.fresh with parserblocks := [{ Block.fresh with payload := [1, 2, 3, 4] }, Block.fresh] }
+    let t : Packet := { Packet.fresh with parserblocks := [Block.fresh, Block.fresh, Block.fresh], numberofblocks := 3 }
+    ∃ b, (Packet.pack a).2 = .ok b ∧ b.length = 20 ∧ (Packet.unpack t b).2 = .ok () ∧ (Packet.unpack t b).1.numberofblocks = 2 :=
+  ⟨_, rfl, rfl, rfl, rfl⟩
 
 example : (Packet.unpack { Packet.fresh with numberofblocks := 3 } [0, 2, 0, 0, 0, 0, 0, 0]).1 =
     (Packet.unpack Packet.fresh [0, 2, 0, 0, 0, 0, 0, 0]).1 := by decide
